@@ -450,3 +450,180 @@ Proof.
   - unf. crunch. hnn. finish_node.
   - unf. crunch. hnn. finish_node.
 Qed.
+
+(* ------------------------------------------------------------------ ins *)
+
+Lemma sorted_node : forall l k i f r, Bst (T l k i f r) ->
+  Bst l /\ Bst r /\ sorted (elements l ++ (k, i) :: elements r).
+Proof.
+  unfold Bst. cbn [elements]. intros l k i f r H. pose proof H as H0.
+  apply sorted_app in H. destruct H as [Hl [Hr _]]. cbn [sorted] in Hr. tauto.
+Qed.
+
+Lemma ins_spec : forall k id t, Balanced t -> Bst t ->
+  match ins k id t with
+  | IDup d => lfind k (elements t) = Some d
+  | IErr => False
+  | IOk t' grew tr =>
+    Balanced t' /\ elements t' = linsert k id (elements t) /\ lfind k (elements t) = None /\
+    (t <> E -> height t' = height t + (if grew then 1 else 0)) /\
+    (grew = true -> factor t' <> 0) /\ t' <> E
+  end.
+Proof.
+  intros k id. induction t as [|l IHl k' id' f r IHr]; intros Bt St.
+  - cbn [ins Balanced elements linsert lfind height factor]. unfold leaf. cbn [Balanced elements linsert lfind height factor].
+    repeat split; try lia; try congruence; try discriminate.
+  - destruct (sorted_node _ _ _ _ _ St) as [Sl [Sr Ss]].
+    cbn [Balanced] in Bt. destruct Bt as [Bl [Br [Hf Hr]]].
+    cbn [ins elements height]. cmp_cases k k'.
+    + subst k'. apply lfind_app_eq. exact Ss.
+    + (* left *)
+      rewrite linsert_app_lt, lfind_app_lt by assumption.
+      destruct l as [|ll lk li lf lr].
+      * destruct (link_neg r k' id' f k id Br) as [p' [grew [tr [Heq [Bp [Ep [Hp [Fp Np]]]]]]]]; try (cbn [height] in *; lia).
+        rewrite Heq. cbn [elements linsert lfind app]. cbn [height] in *. hnn.
+        repeat split; try assumption; try lia; try (intros _; destruct grew; lia).
+      * specialize (IHl Bl Sl).
+        remember (T ll lk li lf lr) as l eqn:El.
+        destruct (ins k id l) as [d|l' grew tr|]; [exact IHl | | exact IHl].
+        destruct IHl as [Bl' [El' [Fl' [Hl' [Gl' Nl']]]]].
+        assert (Hne : l <> E) by (subst l; discriminate). specialize (Hl' Hne).
+        destruct grew.
+        -- destruct (growth_neg l' k' id' f r Bl' Br) as [p' [ok [tg [Heq [Bp [Ep [Hp [Fp Np]]]]]]]]; try lia; try (intros _; apply Gl'; reflexivity).
+           unfold growth_step. rewrite Heq. cbn [elements] in Ep. rewrite Ep, El'.
+           hnn. repeat split; try assumption; try reflexivity.
+           ++ intros _. destruct ok; cbn [negb]; lia.
+           ++ destruct ok; cbn [negb]; [discriminate | intros _; apply Fp; reflexivity].
+        -- cbn [Balanced elements height factor]. rewrite El'. hnn.
+           repeat split; try assumption; try reflexivity; try lia; try discriminate.
+    + (* right *)
+      rewrite linsert_app_gt, lfind_app_gt by assumption.
+      destruct r as [|rl rk ri rf rr].
+      * destruct (link_pos l k' id' f k id Bl) as [p' [grew [tr [Heq [Bp [Ep [Hp [Fp Np]]]]]]]]; try (cbn [height] in *; lia).
+        rewrite Heq. cbn [elements linsert lfind app]. cbn [height] in *. hnn.
+        repeat split; try assumption; try lia; try (intros _; destruct grew; lia).
+      * specialize (IHr Br Sr).
+        remember (T rl rk ri rf rr) as r eqn:Er.
+        destruct (ins k id r) as [d|r' grew tr|]; [exact IHr | | exact IHr].
+        destruct IHr as [Br' [Er' [Fr' [Hr' [Gr' Nr']]]]].
+        assert (Hne : r <> E) by (subst r; discriminate). specialize (Hr' Hne).
+        destruct grew.
+        -- destruct (growth_pos l k' id' f r' Bl Br') as [p' [ok [tg [Heq [Bp [Ep [Hp [Fp Np]]]]]]]]; try lia; try (intros _; apply Gr'; reflexivity).
+           unfold growth_step. rewrite Heq. cbn [elements] in Ep. rewrite Ep, Er'.
+           hnn. repeat split; try assumption; try reflexivity.
+           ++ intros _. destruct ok; cbn [negb]; lia.
+           ++ destruct ok; cbn [negb]; [discriminate | intros _; apply Fp; reflexivity].
+        -- cbn [Balanced elements height factor]. rewrite Er'. hnn.
+           repeat split; try assumption; try reflexivity; try lia; try discriminate.
+Qed.
+
+(* ------------------------------------------------------------------ rem_min / handle_remove / rem *)
+
+Lemma rem_min_spec : forall t, Balanced t -> t <> E ->
+  exists t' sh y tr,
+    rem_min t = Some (t', sh, y, tr) /\ Balanced t' /\
+    elements t = y :: elements t' /\
+    height t' = height t - (if sh then 1 else 0).
+Proof.
+  induction t as [|l IHl k i f r _]; intros Bt Ne; [congruence|].
+  cbn [Balanced] in Bt. destruct Bt as [Bl [Br [Hf Hr]]].
+  cbn [rem_min]. destruct l as [|ll lk li lf lr].
+  - exists r, true, (k, i), []. cbn [elements height app] in *. hnn. repeat split; try assumption; lia.
+  - remember (T ll lk li lf lr) as l eqn:El.
+    assert (Hne : l <> E) by (subst l; discriminate).
+    destruct (IHl Bl Hne) as [l' [sh [y [tr [Heq [Bl' [El' Hl']]]]]]].
+    rewrite Heq. destruct sh.
+    + destruct (shrink_pos l' k i f r Bl' Br) as [p' [stop [tg [Hs [Bp [Ep Hp]]]]]]; try lia.
+      rewrite Hs. exists p', (negb stop), y, (tg :: tr).
+      cbn [elements height] in *. rewrite Ep, El'. hnn.
+      repeat split; try assumption; try reflexivity. destruct stop; cbn [negb]; lia.
+    + exists (T l' k i f r), false, y, tr.
+      cbn [elements height Balanced] in *. rewrite El'. hnn.
+      repeat split; try assumption; try reflexivity; lia.
+Qed.
+
+Lemma handle_remove_spec : forall l k idx f r,
+  Balanced (T l k idx f r) -> r <> E ->
+  exists t' sh tr,
+    handle_remove l idx f r = ROk t' sh idx tr /\ Balanced t' /\
+    elements t' = elements l ++ elements r /\
+    height t' = height (T l k idx f r) - (if sh then 1 else 0).
+Proof.
+  intros l k idx f r Bt Ne.
+  cbn [Balanced] in Bt. destruct Bt as [Bl [Br [Hf Hr]]].
+  destruct r as [|yl ky iy yf yr]; [congruence|].
+  unfold handle_remove. destruct yl as [|a1 a2 a3 a4 a5].
+  - cbn [Balanced] in Br. destruct Br as [_ [Byr [Hyf Hyr]]].
+    cbn [height] in *.
+    destruct (shrink_neg l ky iy f yr Bl Byr) as [p' [stop [tg [Hs [Bp [Ep Hp]]]]]]; try (hnn; lia).
+    unfold shrink_step. rewrite Hs. do 3 eexists. split; [reflexivity|].
+    cbn [elements app] in *. hnn. repeat split; try assumption.
+    destruct stop; cbn [negb]; lia.
+  - remember (T (T a1 a2 a3 a4 a5) ky iy yf yr) as r eqn:Er.
+    destruct (rem_min_spec r Br Ne) as [r' [sh [[ky' iy'] [tr [Heq [Br' [Er' Hr']]]]]]].
+    rewrite Heq. destruct sh.
+    + destruct (shrink_neg l ky' iy' f r' Bl Br') as [p' [stop [tg [Hs [Bp [Ep Hp]]]]]]; try lia.
+      unfold shrink_step. rewrite Hs. do 3 eexists. split; [reflexivity|].
+      cbn [elements height] in *. rewrite Er'. hnn. repeat split; try assumption.
+      destruct stop; cbn [negb]; lia.
+    + do 3 eexists. split; [reflexivity|].
+      cbn [elements height Balanced] in *. rewrite Er'. hnn.
+      repeat split; try assumption; try reflexivity; lia.
+Qed.
+
+Lemma rem_spec : forall k t, Balanced t -> Bst t ->
+  match rem k t with
+  | RAbsent => lfind k (elements t) = None
+  | RErr => False
+  | ROk t' sh rid tr =>
+    Balanced t' /\ lfind k (elements t) = Some rid /\
+    elements t' = ldelete k (elements t) /\
+    height t' = height t - (if sh then 1 else 0)
+  end.
+Proof.
+  intros k. induction t as [|l IHl k' id' f r IHr]; intros Bt St.
+  - reflexivity.
+  - destruct (sorted_node _ _ _ _ _ St) as [Sl [Sr Ss]].
+    pose proof Bt as Bt0.
+    cbn [Balanced] in Bt. destruct Bt as [Bl [Br [Hf Hr]]].
+    cbn [rem elements height]. cmp_cases k k'.
+    + subst k'. rewrite lfind_app_eq, ldelete_app_eq by assumption.
+      destruct l as [|ll lk li lf lr]; destruct r as [|rl rk ri rf rr].
+      * cbn [Balanced elements height app]. repeat split; lia.
+      * cbn [elements app]. split; [exact Br|]. cbn [height] in *. hnn. repeat split; lia.
+      * rewrite app_nil_r. split; [exact Bl|]. cbn [height] in *. hnn. repeat split; lia.
+      * remember (T ll lk li lf lr) as l. remember (T rl rk ri rf rr) as r.
+        assert (Hne : r <> E) by (subst r; discriminate).
+        destruct (handle_remove_spec l k id' f r Bt0 Hne) as [t' [sh [tr [Heq [Bt' [Et' Ht']]]]]].
+        rewrite Heq. cbn [height] in Ht'. repeat split; assumption.
+    + rewrite lfind_app_lt, ldelete_app_lt by assumption.
+      specialize (IHl Bl Sl).
+      destruct (rem k l) as [|l' sh rid tr|]; [exact IHl | | exact IHl].
+      destruct IHl as [Bl' [Fl' [El' Hl']]].
+      destruct sh.
+      * destruct (shrink_pos l' k' id' f r Bl' Br) as [p' [stop [tg [Hs [Bp [Ep Hp]]]]]]; try lia.
+        unfold shrink_step. rewrite Hs. cbn [elements] in Ep. rewrite Ep, El'. hnn.
+        repeat split; try assumption. destruct stop; cbn [negb]; lia.
+      * cbn [Balanced elements height]. rewrite El'. hnn.
+        repeat split; try assumption; try reflexivity; lia.
+    + rewrite lfind_app_gt, ldelete_app_gt by assumption.
+      specialize (IHr Br Sr).
+      destruct (rem k r) as [|r' sh rid tr|]; [exact IHr | | exact IHr].
+      destruct IHr as [Br' [Fr' [Er' Hr']]].
+      destruct sh.
+      * destruct (shrink_neg l k' id' f r' Bl Br') as [p' [stop [tg [Hs [Bp [Ep Hp]]]]]]; try lia.
+        unfold shrink_step. rewrite Hs. cbn [elements] in Ep. rewrite Ep, Er'. hnn.
+        repeat split; try assumption. destruct stop; cbn [negb]; lia.
+      * cbn [Balanced elements height]. rewrite Er'. hnn.
+        repeat split; try assumption; try reflexivity; lia.
+Qed.
+
+Lemma search_spec : forall k t, Bst t -> search k t = lfind k (elements t).
+Proof.
+  intros k. induction t as [|l IHl k' id' f r IHr]; intros St; [reflexivity|].
+  destruct (sorted_node _ _ _ _ _ St) as [Sl [Sr Ss]].
+  cbn [search elements]. cmp_cases k k'.
+  - subst k'. symmetry. apply lfind_app_eq. exact Ss.
+  - rewrite lfind_app_lt by assumption. apply IHl. exact Sl.
+  - rewrite lfind_app_gt by assumption. apply IHr. exact Sr.
+Qed.
